@@ -1,6 +1,6 @@
 (* FPassFacts.v — one evaluation pass: the {equations} block of the Fortran module (FSem.f_pass) computes what the generated
    Python _evaluate (FSem.py_pass) computes, on every program of benign expressions (FBenignFacts.benign: the expression
-   subset common to both back-ends), for every number type and arithmetic in which negation commutes with * and /.  Then the end-to-end
+   subset common to both back-ends), for every number type and arithmetic (the sign symmetry of * and / is asked only at the values a pass meets).  Then the end-to-end
    statements: FortranEngine.solve_t / _evaluate over the compiled module = the pure-Python class. *)
 From Coq Require Import ZArith List Bool Lia ZifyBool.
 Import ListNotations.
@@ -39,24 +39,23 @@ Section Pass.
   Notation cell := (cell num zero).
   Notation set_cell := (set_cell num).
 
-  (* sign symmetry of IEEE multiplication and division *)
-  Hypothesis neg_mul : forall x y, mul (neg x) y = neg (mul x y).
-  Hypothesis neg_div : forall x y, div (neg x) y = neg (div x y).
+  Notation neg_sym := (neg_sym num add sub mul div neg absf ltb of_int fexp flog fpow).
 
   (* ---- a program inside the model's declared structure: m variables, every lag within `lg`, every lead within `ld` ---- *)
   Definition eqn_scoped (m : nat) (lg ld : Z) (q : eqn) : Prop :=
-    (fst q < m)%nat /\ benign num (snd q) /\
+    (fst q < m)%nat /\ benign num add sub mul div of_int fpow (snd q) /\
     forall j k, In (j, k) (reads (snd q)) -> (j < m)%nat /\ - lg <= k <= ld.
   Definition prog_scoped (m : nat) (lg ld : Z) (prog : list eqn) : Prop := Forall (eqn_scoped m lg ld) prog.
 
-  (* along the statements of one pass: max / min never meet a NaN or a tie of zeros of opposite sign, and (when numpy
-     warnings are errors) no operation turns finite arguments into inf / NaN *)
+  (* along the statements of one pass: max / min never meet a NaN or a tie of zeros of opposite sign; where Fortran reads
+     (-x) * y as -(x * y) the two products are the same number (FSemFacts.neg_sym: a closed computation for binary64 data); and
+     (when numpy warnings are errors) no operation turns finite arguments into inf / NaN *)
   Fixpoint pass_ok (catch : bool) (prog : list eqn) (p : nat) (v : vals) : Prop :=
     match prog with
     | [] => True
     | (i, e) :: r =>
         let rd := rd_f v (Z.of_nat p + 1) in
-        mm_det rd e /\ (catch = false \/ quiet rd e) /\ pass_ok catch r p (set_cell v i p (lf_sem rd e))
+        mm_det rd e /\ neg_sym rd e /\ (catch = false \/ quiet rd e) /\ pass_ok catch r p (set_cell v i p (lf_sem rd e))
     end.
 
   (* ---- reading: self._X[t + k] = solved_values(number of X, index + k) ---- *)
@@ -98,11 +97,11 @@ Section Pass.
   Proof.
     induction prog as [|[i e] r IH]; intros v Hs Hp Hsc Hlg Hld Hok; cbn [FSem.py_pass FSem.f_pass]; [reflexivity|].
     inversion Hsc as [|? ? Hq Hr]; subst. destruct Hq as (Hi & Hlf & Hrd). cbn [fst snd] in *.
-    cbn [pass_ok] in Hok. destruct Hok as (Hmm & Hq & Hok).
+    cbn [pass_ok] in Hok. destruct Hok as (Hmm & Hns & Hq & Hok).
     assert (Hreads : forall j k, In (j, k) (reads e) -> rd_py v n t j k = Some (rd_f v (Z.of_nat p + 1) j k)).
     { intros j k Hin. destruct (Hrd j k Hin) as [Hj Hk]. apply (rd_agree n m); auto. lia. }
-    destruct (benign_agree num add sub mul div neg absf ltb is_nan is_inf of_int fexp flog fpow round4 exp4 log4 pow4 zero one
-                neg_mul neg_div catch (rd_py v n t) (rd_f v (Z.of_nat p + 1)) e Hlf Hreads Hmm Hq) as [Pe Fe].
+    destruct (benign_agree_local num add sub mul div neg absf ltb is_nan is_inf of_int fexp flog fpow round4 exp4 log4 pow4 zero one
+                catch (rd_py v n t) (rd_f v (Z.of_nat p + 1)) e Hlf Hreads Hmm Hns Hq) as [Pe Fe].
     rewrite Pe, Fe, Hp. cbn [FSem.tof FSem.to8].
     rewrite (fwrite_in num n m v i p _ Hs Hi (py_pos_lt _ _ _ Hp)).
     apply IH; auto. apply set_cell_shape. exact Hs.
